@@ -152,7 +152,7 @@ def forward_body(body, ref_names):
             if (p["name"] in ref_names and not st.get("inlined_param")) or p["name"].startswith("_"):
                 continue
             init = T.peel(st["init"])
-            if init.get("k") in ("lit",):
+            if init.get("k") in ("lit",) and not st.get("inlined_param"):
                 continue
             uses = [n for n in T.nodes(body["tree"]) if n.get("k") == "path" and T.local_of(n) == p["id"]]
             if not uses:
